@@ -599,6 +599,8 @@ func (w *Worker) symxCall(fr *frame, fn *ssa.Function, args []value) value {
 	switch name {
 	case "Symbolic":
 		return true
+	case "Attempt":
+		return uint64(0)
 	case "Bool":
 		return simp(w.newInput(str(0), BoolSort))
 	case "Uint8", "Byte":
